@@ -33,6 +33,37 @@ def in_scope(m):
         or m.name.startswith("nasim.scenarios")
 
 
+def public_entry(ctx, owner, wf):
+    """the public method(s) of class `owner` from which the writing function wf (qualname) is
+    reached through calls on self / cls / the class itself - the call site a user sees; private
+    helpers in between may be renamed, split or merged without the finding becoming another one"""
+    ci = ctx.types.class_by_name.get(owner)
+    leaf = wf.split(".")[-1]
+    if ci is None or not wf.startswith(owner + ".") or leaf not in ci.methods:
+        return wf
+    if not leaf.startswith("_"):
+        return wf
+    calls = {}
+    for name, m in ci.methods.items():
+        recv = set(m.params[:1]) | {owner}
+        calls[name] = {n.func.attr for n in ast.walk(m.node)
+                       if isinstance(n, ast.Call) and isinstance(n.func, ast.Attribute)
+                       and isinstance(n.func.value, ast.Name) and n.func.value.id in recv}
+    # upwards from the writer; the first public method on each path is the entry (its own public
+    # callers are not part of the key)
+    reach, frontier = {leaf}, {leaf}
+    while frontier:
+        nxt = set()
+        for name, cs in calls.items():
+            if name not in reach and cs & frontier:
+                reach.add(name)
+                if name.startswith("_"):
+                    nxt.add(name)
+        frontier = nxt
+    pub = sorted(n for n in reach if not n.startswith("_"))
+    return " / ".join(f"{owner}.{n}" for n in pub) if pub else wf
+
+
 def run(ctx, chk):
     chk.explanation = EXPLANATION
     repo = ctx.repo
@@ -123,8 +154,12 @@ def run(ctx, chk):
         rfuncs = sorted({r[0] for r in rs} - set(wfuncs))
         shared = bool(rfuncs or rs)
         for wf, loc_, how in ws:
+            wf0 = wf
+            wf = public_entry(ctx, owner, wf)
             g = by_writer.setdefault((owner, wf), {"attrs": set(), "readers": set(), "loc": loc_,
-                                                   "how": how, "shared": False, "clean": set()})
+                                                   "how": how, "shared": False, "clean": set(),
+                                                   "writers": set()})
+            g["writers"].add(wf0)
             if shared:
                 g["attrs"].add(name)
                 g["readers"] |= set(rfuncs)
@@ -132,8 +167,9 @@ def run(ctx, chk):
             else:
                 g["clean"].add(name)
     for (owner, wf), g in sorted(by_writer.items()):
-        construct = f"{owner}: class-level attributes written at run time by {wf}"
+        construct = f"{owner}: class-level attributes written at run time through {wf}"
         rd = sorted(g["readers"])
+        wf = " / ".join(sorted(g["writers"]))
         detail = (f"{wf} writes {', '.join(sorted(g['attrs']))} ({g['how']} at {g['loc']}); read by "
                   f"{', '.join(rd[:6])}{' ...' if len(rd) > 6 else ''}: the value set while one "
                   "environment is built/reset is what every other live environment reads")
